@@ -1,9 +1,10 @@
 """C10 check: Taylor-coefficient initialisation returns the exact solution derivatives.
 
-1. prove Props/C10.vo (uniqueness of the formal series solution; padded-scan / unroll models
-   return the derivatives of the formal solution for every polynomial field, order, num;
-   recursive-JVP and doubling models: correct for autonomous fields, refuted by a concrete
-   time-dependent witness);
+1. prove Props/C10.vo (uniqueness / existence of the formal series solution; padded-scan, unroll and
+   recursive-JVP models (the latter as coded after the repair of finding F4: t is a primal with
+   tangent one) return the derivatives of the formal solution for every polynomial field, order,
+   num; the pre-repair recursive-JVP recursion and the doubling model: correct for autonomous
+   fields, refuted by a concrete time-dependent witness);
 2. correspondence: random polynomial vector fields u^(k) = f(u, .., u^(k-1), t) (k = 1, 2; up to 3
    dimensions; degree <= 3; coefficients j/4) compiled to JAX functions on flat arrays or nested
    pytrees (dict / tuple / list, scalar and 1-d leaves), dyadic initial values and times.  Every
@@ -16,9 +17,11 @@
    settings (stopping tolerance 1e-6: compared at 2e-5) and once with
    lstsq_constrained_gauss_newton(tol=1e-13, maxiter=40) (compared at 1e-6; non-convergence is
    reported separately as C10.residual.not-converged).
-   Expected on the unchanged tree: jetexpand_ode_via_jvp and jetexpand_ode_doubling_unroll agree
-   with their models but NOT with the specification for time-dependent fields (they close over t):
-   signatures C10.via_jvp.time-dependent / C10.doubling.time-dependent.
+   Expected on the current tree: jetexpand_ode_doubling_unroll agrees with its model but NOT with
+   the specification for time-dependent fields (it closes over t): signature
+   C10.doubling.time-dependent (known finding).  jetexpand_ode_via_jvp is compared with
+   via_jvp_fixed_model; for time-dependent fields the pre-repair model (t closed over) is evaluated
+   too, and C10.via_jvp.time-dependent is reported if the implementation follows it again.
 """
 
 from __future__ import annotations
@@ -42,7 +45,7 @@ TOL = 1e-9
 RES_TOL = 1e-6           # jetexpand_residual with lstsq_constrained_gauss_newton(tol=1e-13, maxiter=40): SVD least squares on
                          # Jacobians whose entries span many orders of magnitude limit the attainable accuracy
 RES_TOL_DEFAULT = 2e-5   # ... with the default Gauss-Newton (its stopping tolerance is 1e-6)
-ALG = {"padded_scan": 0, "unroll": 1, "via_jvp": 2, "doubling": 3}
+ALG = {"padded_scan": 0, "unroll": 1, "via_jvp": 2, "doubling": 3, "via_jvp_closed_over_t": 4}
 NZ = [k for k in range(-6, 7) if k != 0]
 
 
@@ -192,9 +195,9 @@ def ncoeffs(k, routine, num):
 def jvp_cap(k, d, maxdeg, quick):
     """bound num for the recursive-JVP routine: the implementation nests jvp num-1 deep (cost ~2^num)
     and the symbolic model's polynomials have degree deg + n (deg - 1)."""
-    cap = 6 if quick else 8
+    cap = 5 if quick else 8
     if maxdeg >= 3 and k * d >= 4:
-        cap = min(cap, 5)
+        cap = min(cap, 4 if quick else 5)
     return cap
 
 
@@ -334,16 +337,16 @@ def main():
     # fixed small-num coverage, then random
     for num in (0, 1, 2):
         cases.append(gen_flat_case(rng, quick, k=1 + num % 2, timedep=True, num=num))
-    for _ in range(36 if quick else 200):
+    for _ in range(24 if quick else 200):
         cases.append(gen_flat_case(rng, quick))
     for k in (1, 2):
         for td in (False, True):
             cases.append(gen_flat_case(rng, quick, k=k, d=3, timedep=td))
-    for _ in range(20 if quick else 100):
+    for _ in range(12 if quick else 100):
         cases.append(gen_flat_case(rng, quick, d=rng.choice([2, 3, 3]), tree=True))
     cases += gen_reject_cases(rng)
     forms = ["from_ode", "implicit", "dae"]
-    for i in range(12 if quick else 60):
+    for i in range(6 if quick else 60):
         cases.append(gen_residual_case(rng, quick, forms[i % 3]))
     # the recorded witness of the time-dependence defect
     cases.append({"kind": "flat", "k": 1, "d": 1, "timedep": True, "maxdeg": 2,
@@ -364,6 +367,10 @@ def main():
             if cl["routine"] != "residual":
                 terms.append(model_term(c, cl["routine"], cl["num"]))
                 where.append((ci, li))
+            if cl["routine"] == "via_jvp" and c["timedep"] and c["kind"] != "reject":
+                # the routine as it was BEFORE the repair of finding F4 (t closed over): used to recognise the defect if it returns
+                terms.append(model_term(c, "via_jvp_closed_over_t", cl["num"]))
+                where.append((ci, li, "old"))
 
     impl_box = {}
 
@@ -484,33 +491,41 @@ def main():
                           dict(replay, broken="correspondence Run/JetRun.v"), nofail=True)
                 continue
             if mism_s:
-                if routine in ("via_jvp", "doubling") and c["timedep"] and m is not None and not mism_m:
-                    closes = " (the Coq model of the routine, which closes over t, reproduces the returned values)"
-                    ck.report(f"C10.{routine}.time-dependent",
-                              f"jetexpand_ode_{'via_jvp' if routine == 'via_jvp' else 'doubling_unroll'} drops the explicit time derivative of a "
-                              f"time-dependent vector field: {mism_s}; order {k}, d={d}, t0={float(c['t0'])}, "
-                              f"{'num' if routine == 'via_jvp' else 'num_doublings'}={num}{closes}",
+                old_raw = mv.get((ci, li, "old")) if routine == "via_jvp" else None
+                m_old = unflat(lib.decode_optQ(old_raw), d) if old_raw is not None and not isinstance(old_raw, str) \
+                    and lib.decode_optQ(old_raw) is not None else None
+                if routine == "via_jvp" and c["timedep"] and m_old is not None and not compare(rec["out"], m_old, TOL):
+                    ck.report("C10.via_jvp.time-dependent",
+                              "jetexpand_ode_via_jvp drops the explicit time derivative of a time-dependent vector field again (defect F4, "
+                              f"repaired in 46ebe36, has returned): {mism_s}; order {k}, d={d}, t0={float(c['t0'])}, num={num} (the Coq model of "
+                              "the routine BEFORE the repair, which closes over t, reproduces the returned values)",
+                              dict(replay, expected=[[str(x) for x in v] for v in exp_spec], model_closed_over_t=[[str(x) for x in v] for v in m_old]))
+                elif routine == "doubling" and c["timedep"] and m is not None and not mism_m:
+                    ck.report("C10.doubling.time-dependent",
+                              "jetexpand_ode_doubling_unroll drops the explicit time derivative of a time-dependent vector field: "
+                              f"{mism_s}; order {k}, d={d}, t0={float(c['t0'])}, num_doublings={num} (the Coq model of the routine, which closes "
+                              "over t, reproduces the returned values)",
                               dict(replay, expected=[[str(x) for x in v] for v in exp_spec], model=[[str(x) for x in v] for v in (m or [])]))
                 else:
                     ck.report(f"C10.{routine}.value", f"{routine}(num={num}) differs from the formal series solution: {mism_s}; order {k}, d={d}, "
                               f"time-dependent={c['timedep']}, tree={jc.get('tree')}",
                               dict(replay, expected=[[str(x) for x in v] for v in exp_spec]))
-            if mism_m and not mism_s and routine in ("via_jvp", "doubling") and c["timedep"]:
-                # the implementation differentiates t as well (e.g. the repair modelled by via_jvp_fixed_model, proved
-                # correct in C10_via_jvp_with_time_tangent_is_correct): the as-coded model is out of date, not the code
+            if mism_m and not mism_s and routine == "doubling" and c["timedep"]:
+                # the implementation differentiates t as well: the as-coded model (t closed over) is out of date, not the code
                 repaired.add(routine)
             elif mism_m and not mism_s and corr_bug is None:
                 corr_bug = (replay, f"{routine}(num={num}): implementation agrees with the specification but not with the Coq model: {mism_m}")
             # the theorems say the scan / unroll models equal the specification: cross-check the evaluation
             if m is not None and routine in ("padded_scan", "unroll") and m != exp_spec and corr_bug is None:
                 corr_bug = (replay, f"model of {routine} differs from the specification (contradicts T10.2)")
-            if m is not None and routine in ("via_jvp", "doubling") and not c["timedep"] and m != exp_spec and corr_bug is None:
-                corr_bug = (replay, f"model of {routine} differs from the specification on an autonomous field")
+            if m is not None and routine == "via_jvp" and m != exp_spec and corr_bug is None:
+                corr_bug = (replay, "model of via_jvp (as coded now) differs from the specification (contradicts T10.3)")
+            if m is not None and routine == "doubling" and not c["timedep"] and m != exp_spec and corr_bug is None:
+                corr_bug = (replay, "model of doubling differs from the specification on an autonomous field (contradicts T10.4)")
 
     for routine in sorted(repaired):
         ck.notes.append(f"{routine}: the implementation returns the exact derivatives for time-dependent fields, i.e. it no longer closes "
-                        f"over t; Model/Jet.v {routine}_model (which closes over t) is out of date -- switch the model to the repaired "
-                        "recursion (via_jvp_fixed_model, proved correct for every field)")
+                        f"over t; Model/Jet.v {routine}_model (which closes over t) is out of date and must be re-modelled")
     ck.hist["compared"] = {"n": n_cmp}
     ck.hist["model_eval_failed"] = {"n": n_evalfail}
     if n_evalfail:
@@ -527,7 +542,7 @@ def main():
                   nofail=True)
     ck.finish(rule="cases drawn from one PRNG: polynomial fields u^(k)=f(u,..,u^(k-1),t), k in {1,2}, d in 1..3, 1..4 monomials per component of "
               "degree <= 3 (<= 2 for some), coefficients j/4, explicit t in ~60% of the fields; initial values and t0 are j/4; num 0..6 (quick) / 0..10; "
-              "via_jvp capped at num 5..8 (cost 2^num), doubling 0..3 doublings (1,3,7,15 coefficients; first order only); tree cases wrap the state "
+              "via_jvp capped at num 4..5 (quick) / 5..8 (cost 2^num), doubling 0..3 doublings (1,3,7,15 coefficients; first order only); tree cases wrap the state "
               "in random dict/tuple/list pytrees with scalar or 1-d leaves (dict keys in random order, so that ravel order != natural order); "
               "residual cases: residual_from_ode(ode).jet_lift(num-1), M(u^(k)-f)=0 with triangular M, index-1 DAE stacks; reject cases: wrong "
               f"number of initial values / doubling on second order.  tolerance {TOL} (residual routine: {RES_TOL} tightened solver, {RES_TOL_DEFAULT} default solver) * max(1,|coefficient vector|). "
